@@ -29,21 +29,24 @@ def check(run):
         full = rlngen.verify_input(M["msg"], M["signal"])
         W += rlngen.with_oracle(zkh, [(f"rln verify_rln {hx(full)}", M["msg"]), (f"rln verify_roots {hx(full)} {hx(le(M['root'], 32))}", M["msg"]),
                                       (f"rln verify {hx(M['msg'])}", M["msg"])])
+    # proofs are generated under every pool size as well: the proof bytes are randomised, the published values and the verdict are not
+    for M in msgs:
+        W += M["setup"] + [f"rln prove_verify {hx(M['req'])} {hx(M['signal'])}"]
     for _ in range(3 if quick else 20):
         path = [rand_fr(rng) for _ in range(20)]
         idx = bytes(rng.getrandbits(1) for _ in range(20))
         args = f"{hex(rand_fr(rng))} 0x64 0x3 {','.join(hex(p) for p in path)} {hx(idx)} {hex(rand_fr(rng))} {hex(rand_fr(rng))}"
         W += ["calcwit " + args, "witmap " + args, "witness " + args]
     transcripts = {}
-    for nt in (1, 2, 4, 16):
+    for nt in (1, 2, 3, 4, 16):
         transcripts[nt] = core.run_impl(zkh, W, env={"RAYON_NUM_THREADS": str(nt)})
     base = transcripts[1]
-    for nt in (2, 4, 16):
+    for nt in (2, 3, 4, 16):
         if transcripts[nt] != base:
             k = next(i for i, (a, b) in enumerate(zip(base, transcripts[nt])) if a != b)
             run.violation({"property": run.pid, "kind": "impl-vs-spec", "stream": "worker-pool", "ops": W[max(0, k - 6):k + 1],
                            "detail": f"line differs between RAYON_NUM_THREADS=1 and {nt}: {base[k][:120]} vs {transcripts[nt][k][:120]}"})
-    run.cov["worker_pool_sizes"] = [1, 2, 4, 16]
+    run.cov["worker_pool_sizes"] = [1, 2, 3, 4, 16]
     run.cov["workload_lines"] = len(W)
     # the single-thread transcript against the model and the specification
     run.differential("workload-vs-model", [W], canon=lambda l, x: x.split("]")[0] + "]" if l.startswith("calcwit ") and x.startswith("[") else x,
